@@ -6,6 +6,7 @@ import (
 	"math/big"
 	"os"
 	"strings"
+	"time"
 
 	sdkmath "cosmossdk.io/math"
 	sdk "github.com/cosmos/cosmos-sdk/types"
@@ -221,7 +222,10 @@ type BuiltTx struct {
 	GasPrice *big.Int
 	Value    *big.Int
 	To       *common.Address
+	Oracle   *OracleInfo
 }
+
+func sdkDur(sec int64) time.Duration { return time.Duration(sec) * time.Second }
 
 const defaultEthGas = 3_000_000
 
@@ -454,6 +458,10 @@ func (r *Run) Build(ctx sdk.Context, op Op) (*BuiltTx, error) {
 	}
 	return nil, fmt.Errorf("unknown op kind %q", op.K)
 }
+
+// directOps are keeper entry points the statements name explicitly (slash, NST update): they are
+// called on the block's deliver context between transactions, as BeginBlock/EndBlock callers do.
+var directOps = map[string]func(r *Run, ctx sdk.Context, op Op){}
 
 // extraBuilders lets other files register op kinds (oracle, avs, evm, params).
 var extraBuilders = map[string]func(r *Run, ctx sdk.Context, op Op) (*BuiltTx, error){}
